@@ -131,6 +131,19 @@ def Filter.isSpecificService : Filter → Bool
   | .service (some _) (some _) => true
   | _ => false
 
+def Filter.objectUuid? : Filter → Option Uuid
+  | .object (some u) => some u
+  | _ => none
+
+def Filter.servicePair? : Filter → Option (Uuid × Uuid)
+  | .service (some o) (some s) => some (o, s)
+  | _ => none
+
+def Filter.isUnspecificService : Filter → Bool
+  | .service (some _) (some _) => false
+  | .service _ _ => true
+  | .object _ => false
+
 def Listener.addFilter (l : Listener) (f : Filter) : Listener :=
   { l with filters := sinsert f l.filters,
            allObjects := l.allObjects || f.isAnyObject,
@@ -156,13 +169,13 @@ while the flag says otherwise is the `unreachable!()` of the code. -/
 def Listener.specificObjects (l : Listener) : Except Panic (Option (List Uuid)) :=
   if l.allObjects then .ok none else
   if l.filters.any Filter.isAnyObject then .error (.unreachable "specific_objects") else
-  .ok (some (l.filters.filterMap (fun f => match f with | .object (some u) => some u | _ => none)))
+  .ok (some (l.filters.filterMap Filter.objectUuid?))
 
 def Listener.specificServices? (l : Listener) : Except Panic (Option (List (Uuid × Uuid))) :=
   if !l.specificServices then .ok none else
-  if l.filters.any (fun f => match f with | .service (some _) (some _) => false | .service _ _ => true | .object _ => false)
+  if l.filters.any Filter.isUnspecificService
   then .error (.unreachable "specific_services") else
-  .ok (some (l.filters.filterMap (fun f => match f with | .service (some o) (some s) => some (o, s) | _ => none)))
+  .ok (some (l.filters.filterMap Filter.servicePair?))
 
 /-! ### `Service` -/
 
